@@ -3,7 +3,7 @@ package grl
 // Static typing of generated expressions, used by the shrinker to keep candidates well-typed.
 
 var fieldTypes = map[string]Type{
-	"I": TInt, "I32": TInt, "I8": TInt, "U64": TUint, "U16": TUint, "U8": TUint,
+	"I": TInt, "I32": TInt, "I8": TInt, "D": TInt, "Mn": TFloat, "Gr": TUint, "U64": TUint, "U16": TUint, "U8": TUint,
 	"F": TFloat, "F32": TFloat, "S": TString, "S2": TString, "B": TBool, "T": TTime,
 	"P": TPtr, "P2": TPtr, "PN": TInt, "P.X": TInt, "P.Y": TString, "P.Z": TFloat, "P.Q": TPtr, "P.Q.V": TInt, "P.Q.W": TString,
 	"L[].X": TInt, "L[].Y": TString, "L[].Z": TFloat, "MP[].X": TInt, "MP[].Y": TString, "MP[].Z": TFloat, "L[]": TPtr, "MP[]": TPtr,
